@@ -240,7 +240,7 @@ def validate_evidence(doc):
 
 def run_check(prop, tier, seed, nruns, workers=None, batch=None, wall_cap=3000,
               min_budget=300, min_wall=600, params=None, extra_evidence=None,
-              pre_results=None, quiet=False):
+              pre_results=None, quiet=False, evidence_path=None, label=None):
     """Run `nruns` simulated executions of `prop`; returns exit code."""
     t0 = time.time()
     eng = importlib.import_module(ENGINES[prop])
@@ -276,11 +276,12 @@ def run_check(prop, tier, seed, nruns, workers=None, batch=None, wall_cap=3000,
     results.sort(key=lambda r: r['run'])
     return finish(prop, tier, seed, results, harness_errors, t0, eng,
                   min_budget=min_budget, min_wall=min_wall, params=params,
-                  extra_evidence=extra_evidence, workers=workers, quiet=quiet)
+                  extra_evidence=extra_evidence, workers=workers, quiet=quiet,
+                  evidence_path=evidence_path, label=label)
 
 
 def finish(prop, tier, seed, results, harness_errors, t0, eng, min_budget=300, min_wall=600,
-           params=None, extra_evidence=None, workers=16, quiet=False):
+           params=None, extra_evidence=None, workers=16, quiet=False, evidence_path=None, label=None):
     known = core.load_known(KNOWN_PATH)
     viols = [r for r in results if r.get('violation')]
     stats, known_hits = {}, {}
@@ -383,13 +384,14 @@ def finish(prop, tier, seed, results, harness_errors, t0, eng, min_budget=300, m
         lines.append('HARNESS-ERROR property=%s evidence invalid: %r' % (prop, e))
         exit_code = exit_code or 2
     os.makedirs(EVID_DIR, exist_ok=True)
-    tmp = os.path.join(EVID_DIR, '.%s.json.tmp' % prop)
+    final = evidence_path or os.path.join(EVID_DIR, '%s.json' % prop)
+    tmp = final + '.tmp'
     with open(tmp, 'w') as f:
         f.write(_dumps(doc))
-    os.replace(tmp, os.path.join(EVID_DIR, '%s.json' % prop))
+    os.replace(tmp, final)
     if not quiet:
-        print('%s tier=%s seed=%d runs=%d distinct_nontrivial=%d states=%d checks=%d wall=%.1fs violations=%d' %
-              (prop, tier, seed, nev, len(nontriv), len(states), checks, wall, len(viols)))
+        print('%s%s tier=%s seed=%d runs=%d distinct_nontrivial=%d states=%d checks=%d wall=%.1fs violations=%d' %
+              (prop, ' [%s]' % label if label else '', tier, seed, nev, len(nontriv), len(states), checks, wall, len(viols)))
     for ln in lines:
         print(ln)
     sys.stdout.flush()
@@ -406,8 +408,12 @@ def replay_file(path, quiet=False):
     with open(path) as f:
         doc = json.load(f)
     prop = doc['property']
+    params = doc.get('params') or None
+    eng = importlib.import_module(ENGINES[prop])
+    if hasattr(eng, 'prepare_replay'):
+        params = eng.prepare_replay(params)
     ok, norm, res = _replay_fails(prop, doc.get('tier', 'quick'), doc['choices'], doc['invariant'],
-                                  doc.get('signature', {}), doc.get('params') or None)
+                                  doc.get('signature', {}), params)
     if ok:
         same = (res['digest'] == doc.get('digest')) if doc.get('digest') else None
         print('VIOLATION property=%s replay=%s' % (prop, path))
